@@ -15,11 +15,11 @@ PROP = dict(
          'by startpos+moves and by TPS+moves, growing prefixes, takebacks, games played to the end, repeated go, go with every mix of '
          'movetime/wtime/btime/winc/binc incl. 64-bit overflow values), the same with lines dropped/swapped/duplicated, malformed lines '
          'inserted (bad sizes, bad TPS, bad moves, unknown commands, Unicode spaces, NUL bytes), single characters corrupted, quit midway, '
-         'all teinewgame lines removed, a second game without a position, pure garbage, 20 fixed histories; ConfigFactory depth 1-2, '
+         'all teinewgame lines removed, a second game without a position, consecutive position commands with equal or extending move lists but different declared starts (startpos / TPS / another TPS, within a game and across teinewgame), byte-level damage, pure garbage, 24 fixed histories; ConfigFactory depth 1-2, '
          'three evaluators, table of 0/16/64/256 entries; (b) calcBudget on a dense grid of boundary values and random int64 triples '
          '(ms-valued GUI clocks, clocks around 1 ms, the whole non-negative int64 range, arbitrary int64). non-trivial = script with at '
          'least one bestmove / triple with a clock; distinct = distinct inputs. Scripts whose clock could cut the search (budget < 20 s) '
-         'and 6 timed clock probes are judged by the Go oracle only.',
+         'and 10 timed clock probes (which clock, which increment, movetime cap, 1 ms left = expires at once: class clock-ignored) are judged by the Go oracle only.',
     assumptions=['searches are compared only when the clock cannot cut them (budget absent or >= 20 s); tiny-clock scripts are judged by the oracle only',
                  'the searcher is a parameter of the theorems; the correspondence runs the engine model with the search model of Search.v '
                  '(NoSort, no null move, no slide reduction, depth 1-2)',
